@@ -241,12 +241,15 @@ def check_step(ctx, kind, st):
         else:
             mode = MODES[st.arg if op == "save" else "none"]
             tags = None if st.mem is None else (S.vendor, list(st.exp_indep))
+            did3 = "1" if st.v1 == "deleteid3" else "0"      # the engine passes deleteid3=True on some ID3-prefixed files
+            if did3 == "1":
+                ctx.count("flac:save-deleteid3")
             if tags is None:
-                reply = ctx.model.call("flac_save_obj", hx(st.before), enc_blocks(obj), "none", "-", mode, "0")
+                reply = ctx.model.call("flac_save_obj", hx(st.before), enc_blocks(obj), "none", "-", mode, did3)
             elif opened and op == "fresh" and any(b[0] == 4 for b in obj):
-                reply = ctx.model.call("flac_save", hx(st.before), hx(tags[0]), enc_comments(tags[1]), mode, "0")
+                reply = ctx.model.call("flac_save", hx(st.before), hx(tags[0]), enc_comments(tags[1]), mode, did3)
             else:
-                reply = ctx.model.call("flac_save_obj", hx(st.before), enc_blocks(obj), hx(tags[0]), enc_comments(tags[1]), mode, "0")
+                reply = ctx.model.call("flac_save_obj", hx(st.before), enc_blocks(obj), hx(tags[0]), enc_comments(tags[1]), mode, did3)
             ctx.corr_cases += 1
             parts = compare_bytes(ctx, "save", reply, st.after, st.exc, data)
             if parts and st.cb and len(parts) >= 4 and parts[2] != "-":
@@ -255,6 +258,11 @@ def check_step(ctx, kind, st):
                     ctx.disagree("fam.flac", "save: padding callback received different (info.padding, info.size)",
                                  dict(data, model=[zp(parts[2]), zp(parts[3])], impl=[p_in, size_in]))
             f2, obj2 = sess_step(ctx, st.before, obj, "save", tags, mode)
+            if did3 == "1":
+                # sess_step (the function of the session theorems) models saves without deleteid3; the object it leaves
+                # behind does not depend on the option, the file of this step is the one of flac_save_obj compared above
+                if parts:
+                    f2 = unhx(parts[1])
             if f2 is None or not same_or_rerender(ctx, f2, st.after):
                 ctx.disagree("fam.flac", "save: session model (sess_step) gives a different file", data)
             S.obj = obj2
